@@ -139,7 +139,7 @@ pub struct HistKnobs {
 
 impl HistKnobs {
     pub fn for_focus(focus: Focus) -> Self {
-        Self { focus, max_ops: 24, max_clients: 4, min_clients: 1, model: ModelKnobs::default(), max_text: 1100 }
+        Self { focus, max_ops: 24, max_clients: 4, min_clients: 1, model: ModelKnobs::default(), max_text: 10000 }
     }
     pub fn miri() -> Self {
         Self {
@@ -358,7 +358,10 @@ pub fn gen_plan(rng: &mut Rng, k: &HistKnobs) -> HistPlan {
                         ops.push(gen_update(rng, k, true, &mut recent))
                     }
                 }
-                2 => ops.push(Op::ResetTags(rng.range(0, 3))),
+                2 => ops.push(Op::ResetTags(match rng.below(30) {
+                    0 => *rng.pick(&[16usize, 300, 5000]),
+                    _ => rng.range(0, 3),
+                })),
                 3 => {
                     ops.push(Op::Predict(rng.below(preds.len())));
                     if k.focus == Focus::C08 && rng.chance(1, 2) {
@@ -549,7 +552,7 @@ struct Client<'p> {
 
 fn apply_plain<'p>(s: &mut Sentence<'p, 'p>, op: &'p Op, preds: &'p [Predictor], do_fill: bool) {
     match op {
-        Op::ResetTags(k) => s.reset_tags(*k),
+        Op::ResetTags(k) => s.reset_tags(clamp_tags(*k, s.as_raw_text().len())),
         Op::Predict(p) => preds[*p].predict(s),
         Op::FillTags => {
             if do_fill {
@@ -573,6 +576,11 @@ fn apply_plain<'p>(s: &mut Sentence<'p, 'p>, op: &'p Op, preds: &'p [Predictor],
         }
         _ => unreachable!(),
     }
+}
+
+/// Keeps a huge `reset_tags(k)` within a sane number of slots (k x characters <= ~200 000).
+fn clamp_tags(k: usize, text_bytes: usize) -> usize {
+    k.min((200_000 / text_bytes.max(1)).max(3))
 }
 
 fn abstract_state(o: &SentObs, linked_kind: u8) -> u64 {
@@ -1045,6 +1053,7 @@ pub fn execute(plan: &HistPlan, preds: &[Predictor], ex: &mut Exec) -> (Option<V
                         }
                     }
                     Op::ResetTags(k) => {
+                        let k = &clamp_tags(*k, ro.raw.value().map(|r| r.len()).unwrap_or(1));
                         let chars = ro.raw.value().map(|r| r.chars().count()).unwrap_or(0);
                         let ok = ro.n_tags.value() == Some(k)
                             && ro.tags.value().map(|t| t.len() == chars * k && t.iter().all(|x| x.is_none())).unwrap_or(false);
@@ -1226,11 +1235,18 @@ fn client_trace(ops: &[Op], plan: &HistPlan, preds: &[Predictor]) -> Vec<u64> {
     out
 }
 
-/// Serial reference first, then `reps` times all clients concurrently (one real thread each,
-/// sharing the predictors); every concurrent trace must equal the serial one. Within one Miri
-/// process every repetition sees a different interleaving because the scheduler's PRNG advances.
-pub fn execute_threaded(plan: &HistPlan, preds: &[Predictor], reps: usize) -> Option<Violation> {
-    let serial: Vec<Vec<u64>> = plan.clients.iter().map(|ops| client_trace(ops, plan, preds)).collect();
+/// The serial reference: every client's trace, one after the other.
+pub fn serial_traces(plan: &HistPlan, preds: &[Predictor]) -> Vec<Vec<u64>> {
+    plan.clients.iter().map(|ops| client_trace(ops, plan, preds)).collect()
+}
+
+/// `reps` times all clients concurrently (one real thread each, sharing the predictors); every
+/// concurrent trace must equal the serial reference. The caller passes predictors that have
+/// *not* been used before (the reference is computed on a separate set), so that state a
+/// predictor might initialise lazily is still cold when the threads first meet. Within one
+/// Miri process every repetition sees a different interleaving because the scheduler's PRNG
+/// advances.
+pub fn execute_threaded(plan: &HistPlan, preds: &[Predictor], serial: &[Vec<u64>], reps: usize) -> Option<Violation> {
     for rep in 0..reps {
         let conc: Vec<Option<Vec<u64>>> = std::thread::scope(|sc| {
             let hs: Vec<_> = plan.clients.iter().map(|ops| sc.spawn(move || client_trace(ops, plan, preds))).collect();
